@@ -38,6 +38,38 @@ PROPS = {
   "note": TB + "when_any, retry_when, repeat_effect_until, into_variant, variant_sender, defer/just_from, via/on, sync_wait are not in the Calc model yet; values are ints.",
   "design_ref": "5/C05",
  },
+ "C08": {
+  "claimed": True, "drivers": [],
+  "technique": "Coq proof (inductive invariants over all schedules, parametric numbers of references and closers) of the Scope counter model + K1 lock-step correspondence with the real v2/v1/v0 async_scope",
+  "text": ("Theorems for ALL numbers of scope references (started / detached / dropped), ALL closer/joiner programs (join, cleanup = close+stop+close, racing joins) and ALL schedules: "
+           "the join event is set only when the scope is closed and no admitted reference is outstanding, and is set once that holds; each join completes exactly once; admission "
+           "is linearised against the close (admitted work is counted until released, work after the close never starts); no deadlock; after the event is set nobody is still "
+           "about to touch the scope (refuted for the code as written before the fix f42cb90, with witness schedules). Tie: every schedule with <=2/<=3 pre-emptions plus random "
+           "ones of the real v2, v1 (spawn_detached/attach/cleanup/request_stop) and v0 scopes replayed step by step on the extracted model; direct monitors incl. stop delivery."),
+  "note": TB + "Sequential consistency assumed. The manual-reset event inside the scope is abstract here (its internals: C16); v1 attach's election and spawn_future are C01/C09. Stop delivery to outstanding work is monitored, not a theorem.",
+  "design_ref": "5/C08",
+ },
+ "C09": {
+  "claimed": True, "drivers": [],
+  "technique": "Coq proof by exhaustive reachable-set closure computed and checked inside Coq for every parameter tuple (finite state space, all schedules of any length) + K1 lock-step with the real spawn_future",
+  "text": ("Theorems for EVERY schedule (any length), every operation outcome (value/error/done), the throwing value store, and every future program (drop, await, await+stop, connect-then-drop): "
+           "shared state deleted at most once and exactly once at quiescence; the stored result destroyed once and the member destroyed is the member constructed; the future's result is the "
+           "operation's or done iff abandoned first; drop/cancel requests stop on the operation; no step touches freed state. The reachable set of the (finite) model is computed in Coq "
+           "and proved closed under every thread's step, so the claim is unbounded in schedule length. Three refuted theorems document the defects of the code as written (fixed in /repo). "
+           "Tie: all schedules with <=2/<=3 pre-emptions + random of the real spawn_future in a v2 scope, tracked values, poisoning allocator."),
+  "note": TB + "Sequential consistency. v1-scope programs and throwing allocation/connect are monitored only; spawn_detached's terminate-on-error is not driven; a throwing nest() is not exercised.",
+  "design_ref": "5/C09",
+ },
+ "C16": {
+  "claimed": True, "drivers": [],
+  "technique": "Coq proof (pointer-level model of the v1 event word and next_ chain, auto-reset event on top; invariants over all programs and schedules) + K1 lock-step with the real code",
+  "text": ("PARTIAL. Theorems for ALL thread programs over set/reset/ready/wait (any number of waiters) and ALL schedules: each waiter resumed at most once; resumed iff it observed "
+           "'signalled' or a set took the stack while it was on it; no stranded wait at quiescence; reset only affects later waits; auto-reset: each set consumed by at most one next, "
+           "done is absorbing, a single consumer gets done only after set_done. Tie: K1 lock-step on the real v1 event and auto-reset event. The cancellable v2 event is exercised with "
+           "direct monitors only (no Coq model yet)."),
+  "note": TB + "Sequential consistency. v2 event: monitor only. Findings in cancellable/atomic_intrusive_list surfaced by the v2 lifetime monitor are listed in KNOWN_FINDINGS.txt (see C19/C15).",
+  "design_ref": "5/C16",
+ },
  "C11": {
   "claimed": True, "drivers": [],
   "technique": "Coq proof of soundness of Gallina mirrors of the headers' trait formulas against the Calc machine + comparison of the mirrors with the compiled sender_traits",
